@@ -21,6 +21,7 @@ CASE_TIMEOUT = 120
 WALL = {"quick": 900, "thorough": 7200}
 REQUIRED = {"strands_completed": 1500, "circular": 300, "json_circular": 100, "labelled_edges_copied": 300,
             "involution_checks": 1000, "unknown_rejected": 100, "single_nucleotide": 20, "end_to_end": 20,
+            "end_to_end_via_seq_list": 5, "json_keys_not_from_zero": 50,
             "terminal_bases": 8}
 COMP = {"DA": "DT", "DT": "DA", "DG": "DC", "DC": "DG"}
 SWAP = {"5": "3", "3": "5", "": ""}
@@ -29,7 +30,7 @@ ONE = {"A": "DA", "C": "DC", "G": "DG", "T": "DT"}
 
 def plan(tier, seed):
     n = 4000 if tier == "quick" else 50000
-    return [["dna", i] for i in range(n)] + [["bad", i] for i in range(n // 12)] + [["e2e", i] for i in range(max(30, n // 200))]
+    return [["dna", i] for i in range(n)] + [["bad", i] for i in range(n // 12)] + [["e2e", i] for i in range(max(40, n // 100))]
 
 
 def setup():
@@ -75,18 +76,20 @@ def make_strand(rng, workdir, res):
         if not circ:
             names[0] += "5"
             names[-1] += "3"
-        order = list(range(n))
-        for i in order:
-            g.add_node(i, resname=names[i], resid=i + 1)
-        edges = [(i, i + 1) for i in range(n - 1)]
+        koff = rng.choice([0, 0, 1, 5])          # node ids need not start at 0
+        if koff:
+            bump(res, "json_keys_not_from_zero")
+        for i in range(n):
+            g.add_node(i + koff, resname=names[i], resid=i + 1)
+        edges = [(i + koff, i + 1 + koff) for i in range(n - 1)]
         if circ:
-            edges.append((n - 1, 0) if rng.random() < 0.5 else (0, n - 1))
+            edges.append((n - 1 + koff, koff) if rng.random() < 0.5 else (koff, n - 1 + koff))
         rng.shuffle(edges)
         lab = rng.choice([None, "circle", "x"])
         for a, b in edges:
             if rng.random() < 0.5:
                 a, b = b, a
-            if {a, b} == {0, n - 1} and circ and lab:
+            if {a, b} == {koff, n - 1 + koff} and circ and lab:
                 g.add_edge(a, b, linktype=lab)
             elif rng.random() < 0.1:
                 g.add_edge(a, b, linktype="inner")
@@ -195,11 +198,27 @@ def run_e2e(cid, rng, workdir, res):
     (Path(workdir) / "dna.ff").write_text("\n".join(ff) + "\n")
     n = rng.randint(3, 25)
     seq = "".join(rng.choice("ACGT") for _ in range(n))
-    circ = rng.random() < 0.4
-    p = Path(workdir) / "d.ig"
-    p.write_text("; DNA test\ntitle\n" + seq + ("2" if circ else "1") + "\n")
+    via_seq = rng.random() < 0.4
+    circ = rng.random() < 0.4 and not via_seq
     out = Path(workdir) / "ds.itp"
-    run = pipeline.run_gen_params(name="DS", outpath=out, inpath=[Path(workdir) / "dna.ff"], lib=None, seq=None, seq_file=p, dsdna=True)
+    if via_seq:
+        # the same strand given as a -seq list of name:count items
+        nm = [ONE[c] for c in seq]
+        nm[0] += "5"
+        nm[-1] += "3"
+        items = []
+        for x in nm:
+            if items and items[-1][0] == x:
+                items[-1][1] += 1
+            else:
+                items.append([x, 1])
+        run = pipeline.run_gen_params(name="DS", outpath=out, inpath=[Path(workdir) / "dna.ff"], lib=None,
+                                      seq=["%s:%d" % (a, b) for a, b in items], seq_file=None, dsdna=True)
+        bump(res, "end_to_end_via_seq_list")
+    else:
+        p = Path(workdir) / "d.ig"
+        p.write_text("; DNA test\ntitle\n" + seq + ("2" if circ else "1") + "\n")
+        run = pipeline.run_gen_params(name="DS", outpath=out, inpath=[Path(workdir) / "dna.ff"], lib=None, seq=None, seq_file=p, dsdna=True)
     res["sig"] = sig_of([seq, circ, "e2e"])
     res["sample"] = {"sequence": seq, "circular": circ, "stratum": "gen_params -dsdna"}
     res["nontrivial"] = True
